@@ -239,6 +239,13 @@ class TemplateGen:
                 defs.insert(r.randrange(len(defs) + 1), other)
                 uses = uses + [other]
                 self.features['op-203-non-numeric-in-definition'] += 1
+            if self.allow_delayed and r.random() < 0.25:
+                # a delayed replication INSIDE the definition block: its factor is an ordinary count (not a new reference
+                # value), the replicated elements are definitions once per repetition
+                e3 = r.choice(p.numeric)
+                defs += [101000, r.choice([31001, 31001, 31000]), e3]
+                uses = uses + [e3]
+                self.features['op-203-delayed-replication-in-definition'] += 1
             if r.random() < 0.3:
                 tail = tail + [r.choice(es)]           # used again after cancellation
             if r.random() < 0.3:
@@ -273,8 +280,10 @@ class TemplateGen:
             # operator and the members below them); the count ends inside or right after it; present elements of a class
             # that is NOT kept under 221 follow
             hi = [i for i in p.numeric if i // 1000 >= 10 and i // 1000 != 31] or p.numeric
-            kind = r.choice(['seq', 'rep', 'op'])
-            if kind == 'seq':
+            kind = r.choice(['seq', 'rep', 'op'] + (['drep'] if self.allow_delayed else []))
+            if kind == 'drep':
+                struct, visited = [101000, 31001, r.choice(hi)], 3       # the factor is not a member: it does not count
+            elif kind == 'seq':
                 struct, visited = r.choice([([301011], 4), ([301012], 3), ([301021], 3), ([301023], 3), ([301013], 4)])
             elif kind == 'rep':
                 struct, visited = [101002, r.choice(hi)], 3
